@@ -150,7 +150,14 @@ GEN_PROFILES = {
     "default": dict(gen=dict(), opts=[dict()]),
     "C12": dict(gen=dict(private_rate=0.3), opts=[dict()]),
     "C14": dict(gen=dict(docs=1.0, doc_types="mixed"),
-                opts=[dict(tsp="CODE", tsw="WARN"), dict(tsp="DOCSTRING", tsw="WARN")]),
+                opts=[dict(tsp="CODE", tsw="WARN"), dict(tsp="DOCSTRING", tsw="WARN"), dict(tsp="DOCSTRING", tsw="IGNORE")]),
+    "C08": dict(gen=dict(private_rate=0.25, unique_top_names=False, ties=0.5, infer_returns=0.4, doc_types="mixed"), opts=[dict()]),
+    "C01": dict(gen=dict(kw_rate=0.03, docs=0.5, test_dirs=True, unique_top_names=False, ties=0.3, infer_returns=0.3,
+                         doc_types="mixed"),
+                opts=[dict(test_run=True, tsp="DOCSTRING"), dict()]),
+    "C03": dict(gen=dict(private_rate=0.3), opts=[dict()]),
+    "C04": dict(gen=dict(private_rate=0.4), opts=[dict()]),
+    "C17": dict(gen=dict(private_rate=0.45), opts=[dict()]),
 }
 
 
@@ -166,7 +173,8 @@ def run(ctx) -> None:
             tasks.append((seed, prof["gen"], o))
     rule = ("S-A: generated packages -> mypy.build + griffe.load -> extractor -> Src; Model/Analyze.lean against "
             "ASTWalker+MyPyAstVisitor on the same mypy nodes; the whole API object compared (modules, classes, functions, "
-            "parameters, results, attributes, enums, re-export map, table orders, warnings); non-trivial = >= 5 declarations; "
+            "parameters, results, attributes, enums, re-export map, table orders, warnings); the candidate lists of the alias "
+            "table (Python sets) reach the model in a shuffled order; non-trivial = >= 5 declarations; "
             "distinct by generator seed")
     rep.rule = (rep.rule + " | " if rep.rule else "") + rule
     implrun.WORK.mkdir(exist_ok=True)
@@ -190,7 +198,11 @@ def run(ctx) -> None:
         if r["src"] is None:
             continue
         src = r["src"]
-        reqs.append({"op": "analyze", "modules": src["modules"], "aliases": src["aliases"], "info_bases": src["info_bases"],
+        # the alias table's values are Python sets: the model gets them in an order of the harness' choosing
+        sh = random.Random(r["seed"] ^ 0x5bd1e995)
+        aliases = [[k, sh.sample(v, len(v))] for k, v in src["aliases"]]
+        rep.bump("sa_alias_sets", "several candidates" if any(len(v) > 1 for _, v in aliases) else "single candidates only")
+        reqs.append({"op": "analyze", "modules": src["modules"], "aliases": aliases, "info_bases": src["info_bases"],
                      "doc_tree": src["doc_tree"], "opts": src["opts"]})
         metas.append(r)
     if not ctx.driver_ok:
